@@ -17,6 +17,7 @@ def genFacts9 : Facts9 :=
     defaults := Generated.handleDictDefaults
     mutations := Generated.matchMutations
     fresh := Generated.matchFresh
-    identity := Generated.identityMarkers }
+    identity := Generated.identityMarkers
+    moduleWrites := Generated.matchModuleWrites }
 
 end Glom.C09
